@@ -14,7 +14,7 @@ RULE = ("cases = (declaration, configuration, context) of the runtime corpus; ea
         "property workloads (try_from probes, names + near-miss strings, every variant for next/next_back/as_str, "
         "iterator histories, range pairs) (a) natively in a debug build with rustc's UB checks for every case, "
         "(b) under Miri for a selection covering every unsafe-site class seen in the hook log, "
-        "(c, thorough) under valgrind memcheck on a release build; every returned enum value's discriminant is "
+        "(c) under valgrind memcheck on a release build for every case with <= 300 variants; every returned enum value's discriminant is "
         "checked for membership. Counted as distinct non-trivial: cases executed under Miri or the UB-instrumented "
         "build which reached >= 1 unsafe-site class (transmute / unwrap_unchecked / assume_init)")
 
@@ -112,12 +112,15 @@ def run(tier: str, seed: int) -> int:
             sel = select_for_miri(g, tier, seed)
             mreps, maborts = g.run(["C02"], "miri-quick" if tier == "quick" else "miri-thorough",
                                    mode="miri", only=[c.id for c in sel], timeout=7200)
-            vreps, vaborts = [], []
-            if tier == "thorough":
-                g.build_release()
-                small = [c for c in sel if len(c.decl.variants) <= 40][::3]
-                vreps, vaborts = g.run(["C02"], "miri-thorough", mode="valgrind",
-                                       only=[c.id for c in small], timeout=7200)
+            # (c) valgrind memcheck on a release build (debug checks off): measured ~25x native, so it
+            # sees far more cases than Miri; it cannot see invalid enum values, but it does see the use
+            # of an unwritten MaybeUninit index and invalid reads
+            g.build_release()
+            vsel = sorted((c for c in g.cases.values() if len(c.decl.variants) <= 300),
+                          key=lambda c: -len(c.decl.variants))
+            vreps, vaborts = g.run(["C02"], "miri-thorough" if tier == "quick" else "quick", mode="valgrind",
+                                   only=[c.id for c in vsel], timeout=7200,
+                                   sets=None if tier == "quick" else {"exhaustive_bits": 8, "rand_hist": 40, "pairs_all_n": 16, "pairs_sample": 100})
         sites = {"native": {}, "miri": {}, "valgrind": {}}
         evaluations = 0
         reached_cases = set()
